@@ -5,11 +5,14 @@ import svx_grammar, snippets, svtree
 
 PARTIAL = ("proved over the regenerated grammar: a byte that no primitive consumes is a barrier for every expression "
            "(C14_barrier) and strict source_text / library_text, which end in many_till(description, eof), never succeed "
-           "with such a byte before the end of the text (C14_stop_byte_rejected_*). Not proved: that the reported position is "
-           "at or before the byte and names the right file (error positions are not part of the interpreter's results), "
+           "with such a byte before the end of the text (C14_stop_byte_rejected_*); an interpreter instrumented with the greatest "
+           "position at which any expression was applied computes the same parse (C14_trace_is_the_parse) and never applies "
+           "anything beyond the byte (C14_never_looks_past_the_byte, C14_error_position_at_or_before_the_byte), which bounds "
+           "every position an error report can carry in the preprocessed text. Not proved: which of those positions "
+           "GreedyError selects and its translation to (file, offset) through the origin map (the file named), "
            "rejection after deleting a delimiter, and the preprocessor-level faults: search oracle only")
 
-STOP = ["\x01", "\x7f", "\x1b"]
+STOP = ["\x01", "\x7f", "\x1b", "\x0b", "\x08", "\u00a0", "\u0085", "\u2028", "\u3000", "\ufeff"]
 CLOSERS = {"end", "endmodule", "endcase", "endfunction", "endtask", "endgenerate", "join", "endclass", "endpackage",
            "endinterface", "endprogram", "endproperty", "endsequence", "endspecify", "endtable", "endprimitive", "endconfig",
            "endgroup", "endchecker", "endclocking", "join_any", "join_none"}
@@ -192,6 +195,34 @@ def check(ctx):
                 cc.add("run", "parse_sv_str", hx(src), hx("t.sv"))
                 meta[cc.id] = ("stop", "sv", src, len(pre.encode()), "t.sv", src)
             cases.append(cc)
+    # 1c. the boundary behind a compiler directive (its last token takes the white space that follows, in directive mode):
+    # a byte that is not white space per 5.3 must not vanish into it
+    DIRS = ["`timescale 1ns/1ps\n", "`default_nettype none\n", "`celldefine\n", "`define W 1\n`undef W\n", "`resetall\n", "`line 3 \"x.v\" 0\n",
+            "`begin_keywords \"1800-2017\"\n", "`pragma protect\n", "`unconnected_drive pull0\n", "`nounconnected_drive\n", "`endcelldefine \t\n",
+            "`define D\n`ifdef D\n", "`ifndef U_\n", "`ifdef U_\n`else\n", "`ifdef U_\n`elsif V_\n`else\n", "`ifndef U_\n`endif\n", "`undefineall\n",
+            "`define E\n`E\n", "`define F(x)\n`F(1)\n", "`include \"empty.svh\"\n", "`default_nettype wire \r\n\x0c "]
+    for di, d in enumerate(DIRS):
+        for stop in (STOP if not q or deep else r.sample(STOP, 3) + ["\x0b"]):
+            closing = "`endif\n" if d.count("`if") > d.count("`endif") else ""
+            closing += "`end_keywords\n" if "begin_keywords" in d else ""
+            for shape in range(3):
+                cc = Case("m%d" % n); n += 1
+                cc.add("want", "tree").add("file", hx("empty.svh"), hx(""))
+                if shape == 0:
+                    src = d + stop + "module m; endmodule\n" + closing
+                    cc.add("run", "parse_sv_str", hx(src), hx("t.sv"))
+                    meta[cc.id] = ("stop", "sv", src, len(d.encode()), "t.sv", src)
+                elif shape == 1:
+                    pre = "module m;\n" + d
+                    src = pre + stop + "wire w;\n" + closing + "endmodule\n"
+                    cc.add("run", "parse_sv_str", hx(src), hx("t.sv"))
+                    meta[cc.id] = ("stop", "sv", src, len(pre.encode()), "t.sv", src)
+                else:
+                    inc = d + stop + "module m; endmodule\n" + closing
+                    cc.add("file", hx("inc.svh"), hx(inc))
+                    cc.add("run", "parse_sv_str", hx("/* top */\n`include \"inc.svh\"\n"), hx("top.sv"))
+                    meta[cc.id] = ("stop", "sv", "---- inc.svh ----\n" + inc, len(d.encode()), "inc.svh", inc)
+                cases.append(cc)
     # 2. preprocessor-level lexical faults
     for t, fault in [("a \"unterminated\n", 2), ("x /* open\n", 2), ("y \\ z\n", 2), ("module m; \"s\" wire \"q\n", 19), ("ok\n`include \"i.svh\"\n", None)]:
         cc = Case("m%d" % n); n += 1
@@ -223,7 +254,8 @@ def check(ctx):
         if kind == "split":
             if not ctl_ok:
                 continue
-            if whole_off is None or whole_off < whole_b1:
+            # (offset b1 of the split's preprocessed text is the line break put in front of `include: a byte of the parent)
+            if whole_off is None or whole_off <= whole_b1:
                 ctx.count("split_error_located_before_the_included_part")
                 continue
             kind = "stop"
